@@ -90,7 +90,8 @@ CLAIMS = {
               "byte-length arithmetic, guarded subtraction) or listed in tables/panic_sites.tsv with a reason confirmed by reading and the "
               "dominating conditions of its sites, which must still dominate it (for the script-template predicates guarding Address::from_script, "
               "their exact truth tables); plus the bounded-allocation rule for sizes derived from decoded "
-              "integers. A new unguarded site, or the removal of a guard a discharge/table entry relies on, is a violation. "
+              "integers (bound on count x size of the allocated element type); the truth tables of the predicates tabled sites rest on "
+              "(script templates, lock-time thresholds, opcode classification over all 256 codes) are evaluated as well. A new unguarded site, or the removal of a guard a discharge/table entry relies on, is a violation. "
               "The reasons in the table are reviewed judgements, not machine proofs."),
         technique="reachability on the instance call graph + per-site guard discharge (interval/dominance) + reviewed exception table + taint-to-allocation rule",
         design_ref="§4 C10, Appendix A"),
@@ -104,7 +105,8 @@ CLAIMS = {
               "TxIn, Transaction, BlockHeader/ExtData) incl. flag folding and byte order; length accounting of every encoder (each nested "
               "encode is summed or a fixed-width literal is added); the three varint tables; bounded allocation on decoder paths; the primitive layer (fixed-width integers as little-endian "
               "bytes of their own width, slices whole, compact size then bytes, fixed arrays), the identity byte views of the hash and root "
-              "newtypes, and the lock-time threshold tables. Byte "
+              "newtypes, the lock-time threshold tables, the null/default values of the transaction types, and that no encoder has an "
+              "explicit error return. Byte "
               "identity of secp256k1 parse/serialize is trusted; equality of values is argued per field, not executed."),
         technique="sibling codec agreement on MIR event sequences + exhaustive decision tables over tag bytes + dominance of canonicity guards + return-value dataflow",
         design_ref="§4 C01"),
@@ -213,7 +215,8 @@ CLAIMS = {
               "range-proof message layout is identical in both directions and unblind returns the rewound value/blinder and the checked message; "
               "sender and receiver derive the shared secret with the same function; verify_tx_amt_proofs reaches Ok only through the balance "
               "equation over inputs(+issuance pseudo-inputs) and outputs with a range-proof check per confidential value and a surjection check "
-              "per confidential asset, over a domain that holds every spent output's generator unfiltered. NOT decided: that blinding succeeds, that proofs verify, that commitments balance."),
+              "per confidential asset, over a domain that holds every spent output's generator unfiltered; the blinding constructors "
+              "have no explicit error return (the admitted amounts are libsecp's); variant tables of the confidential accessors. NOT decided: that blinding succeeds, that proofs verify, that commitments balance."),
         technique="structured-listing extraction + term-level factor-flow rules + predicate truth tables + must-pass-through (dominance)",
         design_ref="§4 C04"),
     "C17": dict(
